@@ -7,6 +7,7 @@
 From Coq Require Import ZArith NArith List Bool.
 From Mpc Require Import Gen.Consts Base.Codec Proto.Conn Proto.ConnProof Proto.RunC11.
 Import ListNotations.
+From Mpc Require Gen.State Base.StateExpected Base.StateCheck Base.StatePkgs.
 
 (* For every number of ring buffers, every write-buffer size, every sequence
    of send ops (any values, any payload sizes, Flush placed anywhere) in which
@@ -229,3 +230,16 @@ Theorem C11_real_sizes :
   c_nbuf = Z.to_N p2p_numBuffers /\ c_wcap = Z.to_N p2p_writeBufSize /\ c_rcap = Z.to_N p2p_readBufSize.
 Proof. exact real_sizes_ok. Qed.
 Print Assumptions C11_real_sizes.
+
+(* STATE INVENTORY (finite obligation on the model regenerated from the source, checked by
+   computation).  The struct fields and package-level variables of the Go packages this
+   property is anchored in — p2p — as emitted from /repo's current
+   source by harness/gen_state.go (Gen/State.v) are exactly those the models above were written
+   against (Base/StateExpected.v).  A new field or variable (a cache, a memo, a pool, a counter,
+   a changed field type) is state the models do not have: this obligation then breaks and the
+   property is no longer shown to hold until the change has been reviewed against the model. *)
+Theorem C11_state_inventory :
+  Mpc.Base.StateCheck.state_unchanged Mpc.Gen.State.state_inventory Mpc.Base.StateExpected.expected_state
+    Mpc.Base.StatePkgs.pkgs_C11 = true.
+Proof. vm_compute. reflexivity. Qed.
+Print Assumptions C11_state_inventory.
